@@ -261,6 +261,44 @@ def main():
     if [n for n, *_ in d_s2] != ["ONLY_COL"]:
         report(f"same cursor, same text `select * from c06_t` after USE SCHEMA: description {d_s2}, expected the single column ONLY_COL", {"description": d_s2})
     fs5.duck_conn.close()
+    # ... and with NO DDL on this connection in between: the meaning of the same text changes through USE SCHEMA, through ROLLBACK,
+    # and through DDL issued by another connection
+    fs6, conn6 = setup_conn()
+    other6 = fs6.connect(database="DB1", schema="S1")
+    c6 = conn6.cursor()
+    c6.execute("create schema c06_s3")
+    c6.execute("create table c06_s3.c06_t (solo varchar, second_col int)")
+    sel = "select * from c06_t"
+    c6.execute(sel)
+    d_s1 = desc_of(c6)
+    c6.execute("use schema c06_s3")
+    c6.execute(sel)
+    row6 = c6.fetchone()
+    d_s3 = desc_of(c6)
+    ck.cov["evaluations"] += 3
+    if [n for n, *_ in d_s3] != ["SOLO", "SECOND_COL"]:
+        report(f"same text `{sel}` after USE SCHEMA (no DDL in between): description {[n for n, *_ in d_s3]}, the statement now reads C06_S3.C06_T (SOLO, SECOND_COL); before the USE it was {[n for n, *_ in d_s1]}",
+               {"statements": ["create table c06_s3.c06_t (solo varchar, second_col int)", sel, "<read description>", "use schema c06_s3", sel, "<read description>"], "description": d_s3})
+    c6.execute("use schema s1")
+    c6.execute("begin")
+    c6.execute("alter table c06_t add column tx_col int")
+    c6.execute(sel)
+    d_in = desc_of(c6)
+    c6.execute("rollback")
+    c6.execute(sel)
+    row6 = c6.fetchone()
+    d_out = desc_of(c6)
+    if "TX_COL" not in [n for n, *_ in d_in] or "TX_COL" in [n for n, *_ in d_out] or len(d_out) != len(row6):
+        report(f"same text `{sel}` after a rolled-back ALTER TABLE ADD COLUMN: description {[n for n, *_ in d_out]} for a row of {len(row6)} values (inside the transaction: {[n for n, *_ in d_in]})",
+               {"statements": ["begin", "alter table c06_t add column tx_col int", sel, "<read description>", "rollback", sel, "<read description>"], "description": d_out})
+    other6.cursor().execute("alter table c06_t add column from_other_conn int")
+    c6.execute(sel)
+    row6 = c6.fetchone()
+    d_oc = desc_of(c6)
+    if d_oc[-1][0] != "FROM_OTHER_CONN" or len(d_oc) != len(row6):
+        report(f"same text `{sel}` after ANOTHER connection added a column: description {[n for n, *_ in d_oc]} for a row of {len(row6)} values",
+               {"statements": [sel, "<read description>", "(other connection) alter table c06_t add column from_other_conn int", sel, "<read description>"], "description": d_oc})
+    fs6.duck_conn.close()
     # describe() must not execute
     n0 = conn2.cursor().execute("select count(*) from c06_t").fetchall()
     try:
